@@ -13,3 +13,39 @@ package serverless
 //@   ghostmodifies n_fo, fo_id, fo_origin, fo_v, fo_w
 //@   ensures[C12.feed] n_fo <= old(n_fo) + 1
 //@   ensures[C12.feed] n_fo == old(n_fo) + 1 ==> fo_id == l.ID && fo_origin == l.Origin && fo_v == l.Verifier && fo_w == w
+
+// Closures that touch what the log's server sent (C19): no response makes them panic.
+// fetchCP (captures f)
+//@ func FeedLog$1
+//@   returns (cp, err)
+//@   requires f != nil
+//@   modifies heap
+//@   ensures[C19.s] true
+
+// fetchProof (captures h, f, l): the proof builder is an external library (assumed not to panic)
+//@ func FeedLog$2
+//@   returns (p, err)
+//@   requires f != nil
+//@   modifies heap
+//@   ensures[C19.s] err != nil ==> p == nil
+
+// newFetcher panics on a log URL whose scheme is not http, https or file: a configuration error at start-up, not network input
+//@ func newFetcher
+//@   returns (f)
+//@   requires root != nil && (root.Scheme == "http" || root.Scheme == "https" || root.Scheme == "file")
+//@   modifies heap
+//@   ensures[C19.s] f != nil
+
+// HTTP get (captures c)
+//@ func newFetcher$1
+//@   returns (b, err)
+//@   requires c != nil && u != nil
+//@   modifies heap
+//@   ensures[C19.s] true
+
+// returned fetcher (captures root, get)
+//@ func newFetcher$3
+//@   returns (b, err)
+//@   requires root != nil && get != nil
+//@   modifies heap
+//@   ensures[C19.s] true
